@@ -13,9 +13,10 @@ SPEC = dict(
              dict(name="caseinv-cli", shards=T(16, 16), timeout=T(900, 3600), needs_wtf=True)],
     rule="case = (database, query, re-spelt query, options); non-trivial = the answer to the query is non-empty; distinct by (db, query, variant, options). "
          "CLI: (db, query, variant, limit) with a non-empty result block.",
-    floors=T({"pairs-lexical": 1000, "pairs-nlp": 1000, "pairs-fuzzy": 300, "cached-variant-hit": 500, "cli-pairs-nonempty": 60, "cli-pairs-blanks": 25,
+    floors=T({"pairs-lexical": 1000, "pairs-nlp": 1000, "pairs-fuzzy": 300, "cached-variant-hit": 500, "cli-pairs-nonempty": 60, "cli-pairs-blanks": 25, "cli-pipeline-pairs-nonempty": 60,
               "distinct_nontrivial": 3000},
-             {"pairs-lexical": 10000, "pairs-nlp": 10000, "pairs-fuzzy": 3000, "cached-variant-hit": 5000, "cli-pairs-nonempty": 600, "cli-pairs-blanks": 250,
+             {"pairs-lexical": 10000, "pairs-nlp": 10000, "pairs-fuzzy": 3000, "cached-variant-hit": 5000, "cli-pairs-nonempty": 600, "cli-pairs-blanks": 250, "cli-pipeline-pairs-nonempty": 1500,
               "distinct_nontrivial": 30000}),
-    assumptions=["CLI comparison is on the parsed result block (entry + score with -v); the 'Searching for:' echo legitimately differs in case"],
+    assumptions=["CLI comparison is on the parsed result block (entry + score with -v); the 'Searching for:' echo legitimately differs in case",
+                 "`wtf pipeline <query>` pairs are compared on everything printed (with -v: commands, scores) below the line that repeats the query"],
 )
